@@ -38,7 +38,7 @@ TYPES = {
     'annulus': ['CircularAnnulus', 'EllipticalAnnulus', 'RectangularAnnulus'],
 }
 READS = ['bbox', 'area', 'shape', 'isscalar', 'len', 'to_mask', 'do_photometry', 'area_overlap',
-         'repr', 'getitem', 'copy', 'params', 'iter', 'eq_fresh']
+         'repr', 'getitem', 'copy', 'params', 'iter', 'eq_fresh', 'to_sky', 'to_sky', 'to_sky_to_pixel']
 
 
 def _positions(rng, n, multi=None):
@@ -151,6 +151,10 @@ def _read(ap, what, arg):
         return repr(ap) + '\n' + str(ap)
     if what == 'getitem':
         return ap[arg['index']]
+    if what == 'to_sky':
+        return ap.to_sky(arg['wcs'])
+    if what == 'to_sky_to_pixel':
+        return ap.to_sky(arg['wcs']).to_pixel(arg['wcs'])
     if what == 'iter':
         return list(ap)
     if what == 'copy':
@@ -245,15 +249,15 @@ def run(case, group):
     shp = (n, n + int(rng.integers(0, 5))) if rng.random() < 0.7 else (int(rng.integers(5, 12)), int(rng.integers(40, 70)))
     data = rng.normal(5, 1, shp) * mag
     error = np.abs(rng.normal(1, 0.2, data.shape)) * mag if rng.random() < 0.5 else None
-    mask = (rng.random(data.shape) < 0.1) if rng.random() < 0.4 else None
-    r = rng.random()
-    if r < 0.1:
-        data = data.astype(np.float32)
-        error = None if error is None else error.astype(np.float32)
-        case.note('axis:dtype_aperture_data:float32')
-    elif r < 0.18:
-        data = np.round(data / mag * 10).astype(np.int32)
-        case.note('axis:dtype_aperture_data:int32')
+    mask = AX.mask_kind(case, 'aperture')(data.shape, 0.1)
+    dk = AX.dtype_kind(case, 'aperture_data', extra=('bool',))
+    data = dk(data, mag)
+    if dk.kind in ('float32', 'float16') and error is not None:
+        error = error.astype(np.float32)
+    from pv.gen.c09_skyaper import make_wcs
+    wkinds = ['north_up', 'rotated', 'anisotropic', 'flipped']
+    wk = [wkinds[int(rng.integers(0, 4))], wkinds[int(rng.integers(0, 4))]]
+    wcss = [make_wcs(rng, shp, k) for k in wk]
     data, error, mask = lay(data), lay(error), lay(mask)
     if rng.random() < 0.15:
         un = [u.Jy, u.mJy][int(rng.integers(0, 2))]
@@ -302,10 +306,31 @@ def run(case, group):
         rec[k] = float(model0[k]) if k not in ('positions', 'theta') else model0[k]
     for k in sorted(model0.keys(), key=lambda q: (q.endswith('_in'), q)):
         kw[k], rec[k] = passed(k, model0[k], rec)
-    if rng.random() < 0.5:
+    # one-sided edges / exact (half-)integers: the first position near exactly one border or corner
+    ex, ey, _edge = AX.edge_position(case, 'aperture', shp, margin=4.0)
+    p0 = np.array(rec['positions'], dtype=float)
+    if p0.ndim == 1:
+        p0 = np.array([ex, ey])
+    else:
+        p0[0] = (ex, ey)
+    kw['positions'], rec['positions'] = passed('positions', p0, rec)
+    prov = ['constructor', 'constructor', 'constructor', 'caller_array', 'caller_array', 'via_to_sky_to_pixel',
+            'via_index_of_larger'][int(rng.integers(0, 7))]
+    case.note('axis2_provenance_aperture:' + prov)
+    if prov == 'caller_array':
         caller_arr = np.array(rec['positions'], dtype=np.float64)
         kw['positions'] = caller_arr
     root = cls(**kw)
+    if prov == 'via_to_sky_to_pixel':
+        # an aperture with a history: obtained through the WCS round trip; its record is what it reports
+        root = root.to_sky(wcss[0]).to_pixel(wcss[0])
+        rec = _reported(root)
+    elif prov == 'via_index_of_larger' and np.ndim(rec['positions']) == 2:
+        big = dict(kw)
+        big['positions'] = np.vstack([np.asarray(rec['positions'], dtype=float), [[3.0, 4.0], [7.5, 2.5]]])
+        parent = cls(**big)
+        parent.bbox                                  # the parent was used before
+        root = parent[0:len(rec['positions'])]
     model0 = rec
     pool = [_Slot(root, model0, 'root')]
     tgroups = [0]
@@ -457,10 +482,20 @@ def run(case, group):
             # ---- read ------------------------------------------------------------------
             what = READS[int(rng.integers(0, len(READS)))]
             arg = {'method': str(rng.choice(['exact', 'center', 'subpixel'])), 'subpixels': int(rng.integers(1, 6)),
-                   'data': data, 'error': error, 'mask': mask}
+                   'data': data, 'error': error, 'mask': mask, 'wcs': wcss[int(rng.integers(0, 2))]}
             if what == 'getitem':
                 npos = np.atleast_2d(model['positions']).shape[0]
-                arg['index'] = int(rng.integers(0, npos)) if rng.random() < 0.6 else slice(0, int(rng.integers(1, npos + 1)))
+                ri = rng.random()
+                if ri < 0.45:
+                    arg['index'] = int(rng.integers(0, npos))
+                elif ri < 0.7:
+                    arg['index'] = slice(0, int(rng.integers(1, npos + 1)))
+                else:          # set-like index: duplicates, descending order, list / tuple-free ndarray of several dtypes
+                    idx = rng.integers(0, npos, int(rng.integers(1, 5)))
+                    idx = np.sort(idx)[::-1] if rng.random() < 0.5 else idx
+                    form = int(rng.integers(0, 3))
+                    arg['index'] = [idx.tolist(), idx.astype(np.int32), idx.astype(np.uint8)][form]
+                    case.note('axis2_setlike_aperture_index:' + ['list', 'int32', 'uint8'][form])
             judge(slot, what, arg, False)
             log.append(['read', slot.origin, what])
             if nupd:
